@@ -69,9 +69,14 @@ def run(tier, seed):
             # every one of its writes is a fault point, not a sample
             for k in range(1, len(calls) + 1):
                 if k not in ks and calls[k - 1]['call'] == 'write': jobs.append((hi, k, 'f')); jobs.append((hi, k, 's'))
+    # every history also runs once, without a fault, on the sanitizer build of the daemon code (a report ends the process: the daemon
+    # died without our doing), e.g. pointers kept into an array across its growth in the all-users checkpoint
+    B2 = vlib.build('asan'); drv2 = daemon.build_driver(B2)
+    os.environ['ASAN_OPTIONS'] = 'detect_leaks=0:abort_on_error=0:exitcode=99'
+    for hi in range(len(hist)): jobs.append((hi, 0, 'asan'))
     def one(j):
         hi, k, mode = j
-        r = daemon.chk_experiment(drv, spool, hist[hi][0], hist[hi][1], k or None, mode if k else None)
+        r = daemon.chk_experiment(drv2 if mode == 'asan' else drv, spool, hist[hi][0], hist[hi][1], k or None, mode if k else None)
         r['hist'] = hi
         return r
     with cf.ThreadPoolExecutor(max_workers=vlib.NCPU) as ex:
@@ -90,7 +95,7 @@ def run(tier, seed):
     unlisted, listed = vlib.classify(PID, bad)
     ncrash = sum(1 for j in jobs if j[2] == 'c'); nfail = sum(1 for j in jobs if j[2] in ('f', 's'))
     cov = {'evaluations': len(recs), 'distinct_nontrivial': len(recs) - nh,
-           'rule': 'one case = (request history, k, mode): the history runs on the real daemon code with its checkpoint system calls (openat/write/close/renameat/unlinkat of .echsq_<uid>.ics) interposed; at the k-th such call the process dies (mode c), or the call fails once with EIO (f), or a write is short (s); then a fresh daemon process loads the spool. Every call of every checkpoint of the history is a fault point (quick: at most 40 per history). Histories: 2 users, fat tasks forcing several 4 KiB flushes, and 17 users overflowing the 16-slot dirty array. Non-trivial = a fault was injected',
+           'rule': 'one case = (request history, k, mode): the history runs on the real daemon code with its checkpoint system calls (openat/write/close/renameat/unlinkat of .echsq_<uid>.ics) interposed; at the k-th such call the process dies (mode c), or the call fails once with EIO (f), or a write is short (s); then a fresh daemon process loads the spool. Every call of every checkpoint of the history is a fault point (quick: at most 40 per history). Histories: 2 users, fat tasks forcing several 4 KiB flushes, and 17 users overflowing the 16-slot dirty array. every history also runs fault-free on the -fsanitize=address,bounds build. Non-trivial = a fault was injected',
            'samples': [{'history': hist[0][0][:3], 'k': jobs[1][1], 'mode': jobs[1][2], 'files': recs[1]['files'], 'armed': recs[1]['armed']}],
            'histories': nh, 'crash_points': ncrash, 'failing_calls': nfail, 'mismatching_experiments': v['nbad'],
            'states': e1['states'] + e1a['states'], 'transitions': e1['transitions'] + e1a['transitions'], 'all_users_checkpoint_model': {'states': e1a['states'], 'actions': e1a['coverage']}, 'traces_validated_against_impl': len(recs),
